@@ -201,6 +201,62 @@ def check_project(chk, name, fname, content, fmt, opt, model, kind):
     chk.sample({"project": tag, "NSPECIES": NS, "NELEMENTS": NE, "species_macros": dict(list(spec.items())[:6])}, limit=12)
 
 
+def check_enzo_spelling(chk, name, fname, content, fmt, opt, model):
+    """the Enzo patch of the same network with the electron spelled e-, E and E-: identical files once the alias of
+    the electron (eM / EM, which follows the spelling consistently) and its quoted name are identified -- the
+    patch's own electron field (De) must be chosen by species identity, not by spelling"""
+    import difflib
+
+    tgt = proj.TARGETS["dense"]
+    tdir = tgt["dir"]
+    outs = {}
+    for spell in ("e-", "E", "E-"):
+        txt = re.sub(r"(?<=,)\s*(e-|E)\s*(?=,)", lambda m: f"{spell:>12}", content)
+        args = cli_args(fname, fmt, opt, model, tgt["solver"], tgt["device"], tgt["method"])
+        args[args.index("--elements") + 1] = "e,E,H,D,He,C,N,O,F,Ne,Na,Mg,Al,Si,P,S,Cl,Ar,Ca,Fe,Ni"
+        args[args.index("--pseudo-elements") + 1] = "CR,CRP,XRAY,Photon,PHOTON,CRPHOT,X,M,p,o,m,c-,l-,\\*,g"
+        p = proj.render_cli(f"c09-enzo-{name}-{spell.replace('-', 'm')}", [{"name": fname, "content": txt}], args, tdir)
+        if not p.ok:
+            chk.unknown(f"{name}/enzo-spelling:{spell}", f"command-line rendering refused: {p.meta.get('error', '')[-200:]}")
+            return
+        pdir = p.tdir(tdir)
+        env = dict(os.environ, TQDM_DISABLE="1", PYTHONHASHSEED="0")
+        child_env(env)
+        r = subprocess.run([proj.PY, "-c", "import sys; from naunet.console import main; sys.exit(main())", "render", "--no-interaction", "--force", "--patch", "enzo"], capture_output=True, text=True, cwd=pdir, env=env, timeout=600)
+        if r.returncode != 0 or not os.path.isdir(os.path.join(pdir, "enzo")):
+            chk.unknown(f"{name}/enzo-spelling:{spell}", f"enzo patch not rendered: {(r.stderr or r.stdout).strip()[-200:]}")
+            return
+        outs[spell] = os.path.join(pdir, "enzo")
+        chk.programs += 1
+
+    def canon(t):
+        t = re.sub(r"\b(IDX_|A_)?EM\b", lambda m: (m.group(1) or "") + "eM", t)
+        return re.sub(r"'E-?'", "'e-'", t)
+
+    for spell in ("E", "E-"):
+        tag = f"{name}/enzo-spelling:{spell}"
+        bad = []
+        for root, _, fs in os.walk(outs["e-"]):
+            for fn in sorted(fs):
+                other = os.path.join(root.replace(outs["e-"], outs[spell]), fn)
+                try:
+                    a = canon(open(os.path.join(root, fn)).read()).splitlines()
+                    b = canon(open(other).read()).splitlines() if os.path.exists(other) else None
+                except (UnicodeDecodeError, OSError):
+                    continue
+                if b is None:
+                    bad.append((fn, ["file missing"]))
+                    continue
+                d = [l for l in difflib.unified_diff(a, b, lineterm="", n=0) if l[:1] in "+-" and not l.startswith(("+++", "---"))]
+                if d:
+                    bad.append((fn, d[:6]))
+        if bad:
+            chk.violation(f"{tag}:{bad[0][0]}", f"Enzo patch of the same network differs when the electron is spelled {spell!r} instead of 'e-' (beyond the alias eM/EM): {bad[0][0]}: {bad[0][1][:4]}", {"case": name, "spelling": spell, "files": {fn: d for fn, d in bad[:8]}})
+        else:
+            chk.ok(tag)
+            chk.nontrivial.add(tag)
+
+
 def check_export_summary(chk, name, fname, content, fmt, opt, model):
     """export path: the [summary] that Network.export writes lists species names and aliases in slot order"""
     import tomlkit
@@ -248,6 +304,12 @@ def run(pid, tier):
                 check_export_summary(chk, name, fname, content, fmt, opt, model)
             except Exception as e:
                 chk.harness_error(f"{name}/export: {type(e).__name__}: {e}")
+    for name, fname, content, fmt, opt, model in projects():
+        if name == "naming":
+            try:
+                check_enzo_spelling(chk, name, fname, content, fmt, opt, model)
+            except Exception as e:
+                chk.harness_error(f"{name}/enzo-spelling: {type(e).__name__}: {e}")
     for name, fname, content, fmt, opt, model in projects():
         for kind in (["dense", "odeint"] if tier == "thorough" or name == "naming" else ["dense"]):
             try:
